@@ -120,3 +120,6 @@ def run(ctx):
     ctx.extra["subscriber_cases"] = n
     for c in list(idx.values())[:1]:
         ctx.sample({"kind": "subscribers", "case": c["case"], "ref": [(e["chid"][-2:], e["ev"]) for e in c["ref"]][:25], "windows": [(s["name"], s["kind"], s["a"], s["b"], len(s["entries"])) for s in c["subs"]]})
+    if not ctx.quick():
+        # the repository's own 275 tests, run with the trace hook: every transition they execute is judged
+        stages.repo_suite_traces(ctx, ["C17."])
